@@ -52,6 +52,9 @@ pub struct Game {
     pub call_kinds: Vec<(u8, i32)>,
     /// frames < this were discarded to bound memory in very long runs (unused: we keep all)
     pub keep_all: bool,
+    /// the game keeps its snapshots itself and hands GGRS only the checksum: cell.save(frame, None, Some(cs))
+    pub own_snapshots: bool,
+    pub own: BTreeMap<i32, St>,
 }
 
 pub fn checksum_of(hash: u64) -> u128 {
@@ -78,6 +81,8 @@ impl Game {
             max_prediction: max_prediction as i32,
             call_kinds: Vec::new(),
             keep_all: true,
+            own_snapshots: false,
+            own: BTreeMap::new(),
         }
     }
 
@@ -129,7 +134,16 @@ impl Game {
                     if v.last() != Some(&cs) {
                         v.push(cs);
                     }
-                    cell.save(frame, Some(self.st.clone()), Some(cs));
+                    if self.own_snapshots {
+                        self.own.insert(frame, self.st.clone());
+                        while self.own.len() > 64 {
+                            let k = *self.own.keys().next().unwrap();
+                            self.own.remove(&k);
+                        }
+                        cell.save(frame, None, Some(cs));
+                    } else {
+                        cell.save(frame, Some(self.st.clone()), Some(cs));
+                    }
                 }
                 GgrsRequest::LoadGameState { cell, frame } => {
                     self.call_kinds.push((2, frame));
@@ -155,7 +169,8 @@ impl Game {
                             ),
                         );
                     }
-                    match cell.load() {
+                    let loaded = if self.own_snapshots { self.own.get(&frame).cloned() } else { cell.load() };
+                    match loaded {
                         None => self.err("C02.load_empty", format!("LoadGameState({frame}): cell is empty")),
                         Some(s) => {
                             let mut ok = true;
